@@ -1343,21 +1343,9 @@ pub fn oracle_c12(w: &World, so: &StepObs, out: &mut StepOut) {
     let ifu = w.ifund.to_string();
     let fp = w.fee_pool.to_string();
     let eng = w.engine.to_string();
-    // fee transfers: cw20 = TransferFrom{owner: trader} to a pool; native = bank send engine -> pool
-    let fee_to = |pool: &str, t: &str| -> Vec<u128> {
-        so.xfers
-            .iter()
-            .filter(|x| {
-                x.to == pool
-                    && if cfg.cw20 {
-                        x.pulled && x.from == t
-                    } else {
-                        x.from == eng
-                    }
-            })
-            .map(|x| x.amt)
-            .collect()
-    };
+    // what a pool received in this transaction: every successful collateral transfer whose recipient is the pool,
+    // whoever sent it (pulled from the trader's wallet, or forwarded by the engine) and in however many parts
+    let fee_to = |pool: &str, _t: &str| -> Vec<u128> { so.xfers.iter().filter(|x| x.to == pool && x.from != pool).map(|x| x.amt).collect() };
     match &so.act {
         Act::Open { t, v, margin, lev, .. } => {
             let n = margin * lev / du();
@@ -1380,18 +1368,18 @@ pub fn oracle_c12(w: &World, so: &StepObs, out: &mut StepOut) {
             // engine->insurance-fund send in an open is the spread fee
             let sp_sum: u128 = sp.iter().sum();
             let tl_sum: u128 = tl.iter().sum();
-            let sp_ok = if es == 0 { sp_sum == 0 } else { sp.len() == 1 && sp[0] == es };
-            let tl_ok = if et == 0 { tl_sum == 0 } else { tl.len() == 1 && tl[0] == et };
+            let sp_ok = sp_sum == es;
+            let tl_ok = tl_sum == et;
             if !sp_ok {
                 out.viol(
                     format!("C12:open-spread-fee{}", if reversal { ":reversal" } else { "" }),
-                    format!("spread transfers {:?} expected one of {} (notional {}) in {:?}", sp, es, n, so.act),
+                    format!("spread transfers {:?} expected a total of {} (notional {}) in {:?}", sp, es, n, so.act),
                 );
             }
             if !tl_ok {
                 out.viol(
                     format!("C12:open-toll-fee{}", if reversal { ":reversal" } else { "" }),
-                    format!("toll transfers {:?} expected one of {} (notional {}) in {:?}", tl, et, n, so.act),
+                    format!("toll transfers {:?} expected a total of {} (notional {}) in {:?}", tl, et, n, so.act),
                 );
             }
             let fp_delta = so.bal_delta(&fp);
